@@ -72,6 +72,22 @@ func init() {
 				sweep(), tick("lease+"),
 			},
 		}
-		return []*hist.Scenario{a, b, c}
+		// an UNORDERED source retires same-key messages in any order into an ORDERED
+		// dead-letter subscription: there the forwarded copies are ordered among
+		// themselves by the order in which they arrived
+		e := &hist.Scenario{
+			ID: "C05/unordered-source-ordered-deadletter", Prop: "C05", Depth: d(tier, 6, 7), Drain: true,
+			Cfg: model.Cfg{Topics: []string{"T0", "TD"}, Subs: []model.SubCfg{
+				{Name: "S0", Topic: "T0", DLTopic: "TD", MaxAttempts: 1},
+				{Name: "SD", Topic: "TD", Ordered: true},
+			}},
+			Prelude: []model.Op{pubN("T0", "K1", "K1", "K1"), pull("S0", 10)},
+			Alphabet: []model.Op{
+				nack("S0", "oldest"), nack("S0", "newest"), nack("S0", "all"),
+				pull("SD", 1), pull("SD", 10), ack("SD", "oldest"), ack("SD", "all"),
+				pub1("T0", "K1", 0), pull("S0", 10), tick("lease+"),
+			},
+		}
+		return []*hist.Scenario{a, b, c, e}
 	}
 }
